@@ -350,13 +350,39 @@ fn opposite3<T: Tier>(rep: &mut Report) {
 fn float2<T: Tier>(rep: &mut Report) {
     let us = alphabet::uv2();
     let n = us.len();
+    // near partners: b = a turned by a small angle, or by a small angle short of a half turn, either way
+    let near2: [f64; 6] = [1e-3, -1e-3, 2e-6, -2e-6, PI - 1e-3, -(PI - 1e-3)];
     rep.cases(
         "float2",
         T::NAME,
-        &format!("all {n}x{n} pairs of rational unit vectors in 2-D"),
-        n * n,
+        &format!("all {n}x{n} pairs of rational unit vectors in 2-D; each a with partners turned by {:?} rad", near2),
+        n * n + n * near2.len(),
         Guard::states(100).distinct(100).need("clockwise", 10).need("counter-clockwise", 10),
         |i, ctx| {
+            if i >= n * n {
+                let (ai, th) = ((i - n * n) / near2.len(), near2[(i - n * n) % near2.len()]);
+                let x = us[ai];
+                let c = |v: f64| num_traits::cast::<f64, T>(v).unwrap();
+                let af = [x.0[0] as f64 / x.1 as f64, x.0[1] as f64 / x.1 as f64];
+                let a: [T; 2] = [c(af[0]), c(af[1])];
+                let b: [T; 2] = [c(af[0] * th.cos() - af[1] * th.sin()), c(af[0] * th.sin() + af[1] * th.cos())];
+                let cls = if th > 0.0 { "counter-clockwise" } else { "clockwise" };
+                ctx.branch(cls);
+                ctx.describe(|| format!("a={:?} b={:?} (a turned by {th} rad)", a, b));
+                ctx.out(&(ai, th.to_bits()));
+                let r: Basis2<T> = Rotation::between_vectors(mk_v2(a), mk_v2(b));
+                let ra = v2(r.rotate_vector(mk_v2(a)));
+                // a and b are unit only up to rounding: r(a) has the length of a and the direction of b
+                let (la, lb) = ((a[0].f().powi(2) + a[1].f().powi(2)).sqrt(), (b[0].f().powi(2) + b[1].f().powi(2)).sqrt());
+                let d = ((ra[0].f() / la - b[0].f() / lb).powi(2) + (ra[1].f() / la - b[1].f() / lb).powi(2)).sqrt();
+                let tol = K_TOL * T::U;
+                ctx.check(d <= tol, &key(&format!("between_vectors/Basis2/maps-a-to-b/near/{cls}")), || format!("r(a) = {:?} but b = {:?} (off by {d:e}, tolerance {tol:e})", ra, b));
+                let m = basis2_arr(r);
+                let ang = m[0][1].f().atan2(m[0][0].f());
+                let want = (a[0].f() * b[1].f() - a[1].f() * b[0].f()).atan2(a[0].f() * b[0].f() + a[1].f() * b[1].f());
+                ctx.check((ang - want).abs() <= tol, &key(&format!("between_vectors/Basis2/short-way/near/{cls}")), || format!("rotation angle {ang}, signed angle from a to b {want}"));
+                return;
+            }
             let (x, y) = (us[i / n], us[i % n]);
             let a: [T; 2] = [T::q(x.0[0], x.1), T::q(x.0[1], x.1)];
             let b: [T; 2] = [T::q(y.0[0], y.1), T::q(y.0[1], y.1)];
